@@ -103,6 +103,23 @@ def delete_model_family():
     return out
 
 
+def two_app_family():
+    """deterministic family: two apps with pending evolutions in one run, listed in INSTALLED_APPS in an order that is
+    not the alphabetical one (vapp before lapp): the preview shows the apps in the order the execution takes them"""
+    def m(app, name, fields):
+        return {'name': name, 'table': '%s_%s' % (app, name.lower()), 'unique_together': [], 'index_together': [],
+                'indexes': [], 'constraints': [], 'fields': [fld('id', 'AutoField', primary_key=True)] + fields}
+    v0, l0 = m('vapp', 'Alpha', [fld('a', 'IntegerField', null=True)]), m('lapp', 'Thing', [fld('t', 'IntegerField', null=True)])
+    v1 = m('vapp', 'Alpha', [fld('a', 'IntegerField', null=True), fld('b', 'IntegerField', null=True)])
+    l1 = m('lapp', 'Thing', [fld('t', 'IntegerField', null=True), fld('u', 'IntegerField', null=True)])
+    add = lambda model, field: {'t': 'AddField', 'model': model, 'field': field, 'ftype': 'IntegerField', 'initial': None,
+                                'attrs': [['null', 'true']]}
+    return [{'spec0': {'apps': [{'id': 'vapp', 'models': [v0]}, {'id': 'lapp', 'models': [l0]}]},
+             'spec1': {'apps': [{'id': 'vapp', 'models': [v1]}, {'id': 'lapp', 'models': [l1]}]},
+             'muts': [add('Alpha', 'b')], 'extra_evolutions': {'lapp': [add('Thing', 'u')]},
+             'rows': False, 'family': 'two-apps-not-alphabetical'}]
+
+
 def custom_field_family():
     """deterministic family: fields of two or three project-defined field classes (one module) are added: the written
     evolution imports them; its text must not depend on the hash seed either"""
@@ -231,7 +248,7 @@ def run(ctx):
                 '`evolve --execute`; non-trivial = the preview has at least one statement' % len(seeds))
     flag = ctx.variant.get('together_iteration')
     n = 82 if quick else 600
-    cases = [{'case': c, 'seed': i} for i, c in enumerate(together_family() + index_family() + delete_m2m_family() + custom_field_family() + sql_file_family() + bound_value_family() + delete_model_family())]
+    cases = [{'case': c, 'seed': i} for i, c in enumerate(together_family() + index_family() + delete_m2m_family() + custom_field_family() + sql_file_family() + bound_value_family() + delete_model_family() + two_app_family())]
     tries = 0
     while len(cases) < n + 10 and tries < n * 6:
         tries += 1
@@ -275,7 +292,8 @@ def run(ctx):
                 ctx.fail(None, '`evolve --sql` modified the database: %s' % (r['preview_writes'][:2],), rr)
             if r['preview_status'] != 'ok' and r['execute_status'] != 'ok':
                 ctx.count('both_rejected')
-                if case.get('family') in ('delete-m2m', 'delete-model-next-to-a-change', 'bound-values', 'sql_files'):
+                if case.get('family') in ('delete-m2m', 'delete-model-next-to-a-change', 'bound-values', 'sql_files',
+                                          'two-apps-not-alphabetical'):
                     # these upgrades are valid by construction
                     ctx.fail(None, 'a valid upgrade is refused by the preview (%s) and by the execution (%s)'
                              % (r['preview_error'], r['execute_error']), rr)
